@@ -36,9 +36,9 @@ struct Op {
 struct Case {
     std::vector<Op> ops;
     std::vector<unsigned> slices;
-    unsigned reenter = 0; // bit0: data handlers call RecvData, bit1: semaphore handler calls GetSemaphore, bit2: data handler sends
+    unsigned reenter = 0; // bit0: data handlers call RecvData, bit1: semaphore handler calls GetSemaphore, bit2: data handler sends, bit3: semaphore handler acknowledges
     unsigned readmask = 7; // channels whose CMDi the DSP handler reads and echoes; the others stay full after their first send
-    unsigned polls = 0;    // bit2: the APBP interrupt switches the register context (ic0 = 1, handler ends in retic); bit0: the DSP handler reads CMDi only when the status register shows it ready; bit1: the host reads only
+    unsigned polls = 0;    // bit3: main leaves repc != 0; bit4: the handler does push st2 ... pop st2; bit2: the APBP interrupt switches the register context (ic0 = 1, handler ends in retic); bit0: the DSP handler reads CMDi only when the status register shows it ready; bit1: the host reads only
                            // after RecvDataIsReady (and its callbacks do not read)
 };
 
@@ -69,7 +69,7 @@ Case decode(const std::string& text) {
         else if (t[0] == "readmask" && t.size() >= 2)
             c.readmask = (unsigned)vf::unhex(t[1]) & 7;
         else if (t[0] == "polls" && t.size() >= 2)
-            c.polls = (unsigned)vf::unhex(t[1]) & 7;
+            c.polls = (unsigned)vf::unhex(t[1]) & 31;
         else if (t[0] == "slices")
             for (size_t i = 1; i < t.size(); ++i)
                 c.slices.push_back((unsigned)vf::unhex(t[i]));
@@ -89,8 +89,14 @@ Case decode(const std::string& text) {
 
 const uint16_t kCounter = 0x2000, kLastCmd = 0x2100;
 
-void load_program(Teakra::Teakra& t, unsigned readmask, bool dsp_polls, bool ctx_switch) {
-    std::vector<uint16_t> main = {W("eint()", {}), W("brr(RelAddr7,CondValue)", {0x7F, 0})};
+void load_program(Teakra::Teakra& t, unsigned readmask, bool dsp_polls, bool ctx_switch, bool stale_repc, bool save_st2) {
+    std::vector<uint16_t> main;
+    if (stale_repc) { // the main program leaves a non-zero repeat counter behind (no repeat is running)
+        main.push_back(W("mov_repc(Imm16)", {-1}));
+        main.push_back(5);
+    }
+    main.push_back(W("eint()", {}));
+    main.push_back(W("brr(RelAddr7,CondValue)", {0x7F, 0}));
     for (size_t i = 0; i < main.size(); ++i)
         t.ProgramWrite(0x0100 + (uint32_t)i, main[i]);
     // int0 vector -> handler
@@ -109,6 +115,8 @@ void load_program(Teakra::Teakra& t, unsigned readmask, bool dsp_polls, bool ctx
         h.push_back(W("mov(Imm16,Register)", {-1, 26}));
         h.push_back(v);
     };
+    if (save_st2) // the service routine saves and restores the status word st2 around its body, as compiler-generated prologues do
+        h.push_back(W("push(Register)", {10}));
     for (uint16_t i = 0; i < 3; ++i) {
         if (!((readmask >> i) & 1))
             continue; // this channel is never read: its mailbox stays full, later sends must still interrupt
@@ -138,6 +146,8 @@ void load_program(Teakra::Teakra& t, unsigned readmask, bool dsp_polls, bool ctx
     h.push_back(W("load_page(Imm8)", {(long)(kCounter >> 8)}));
     h.push_back(W("alb(AlbOp,Imm16,MemImm8)", {3, -1, (long)(kCounter & 0xFF)}));
     h.push_back(1);
+    if (save_st2)
+        h.push_back(W("pop(Register)", {10}));
     h.push_back(ctx_switch ? W("retic(CondValue)", {0}) : W("reti(CondValue)", {0}));
     for (size_t i = 0; i < h.size(); ++i)
         t.ProgramWrite(0x0400 + (uint32_t)i, h[i]);
@@ -182,7 +192,7 @@ vf::Result check(const Case& c) {
     static Teakra::Teakra* instance = new Teakra::Teakra(Teakra::UserConfig{}); // construction is slow under TSan: one per process
     Teakra::Teakra& t = *instance;
     t.Reset();
-    load_program(t, c.readmask, c.polls & 1, (c.polls & 4) != 0);
+    load_program(t, c.readmask, c.polls & 1, (c.polls & 4) != 0, (c.polls & 8) != 0, (c.polls & 16) != 0);
     const bool host_polls = (c.polls & 2) != 0;
     t.MMIOWrite(0x206, 0x4000); // IRQ 14 (APBP) -> int0
     auto& regs = t.GetRegisterState();
@@ -213,6 +223,8 @@ vf::Result check(const Case& c) {
         ++sem_cb;
         if (c.reenter & 2)
             (void)t.GetSemaphore();
+        if (c.reenter & 8)
+            t.ClearSemaphore(t.GetSemaphore()); // acknowledge inside the handler
     });
 
     std::atomic<bool> host_done{false};
@@ -413,6 +425,10 @@ vf::Result check(const Case& c) {
         vf::klass("host reads only after RecvDataIsReady");
     if (c.polls & 4)
         vf::klass("service routine with context switch (ic0 = 1, retic)");
+    if (c.polls & 8)
+        vf::klass("main program leaves repc != 0");
+    if (c.polls & 16)
+        vf::klass("service routine saves and restores st2");
     vf::note(vf::hash_str(encode(c)), overlap >= 3 && sends >= 1);
     if (overlap >= 10 && vf::ctx().samples.size() < 5)
         vf::sample(what + "; slices " + std::to_string(c.slices.size()));
@@ -443,8 +459,8 @@ int main(int argc, char** argv) {
     p.gen = [] {
         using namespace rc;
         return gen::map(gen::tuple(gen::container<std::vector<Op>>(genOp()), gen::container<std::vector<unsigned>>(gen::element<unsigned>(1, 1, 2, 3, 7, 16, 64, 200, 1000)),
-                                   vf::range<unsigned>(0, 8), gen::weightedOneOf<unsigned>({{1, gen::just(7u)}, {1, vf::range<unsigned>(0, 8)}}),
-                                   vf::range<unsigned>(0, 8)),
+                                   vf::range<unsigned>(0, 16), gen::weightedOneOf<unsigned>({{1, gen::just(7u)}, {1, vf::range<unsigned>(0, 8)}}),
+                                   vf::range<unsigned>(0, 32)),
                         [](std::tuple<std::vector<Op>, std::vector<unsigned>, unsigned, unsigned, unsigned> t) {
                             Case c;
                             c.ops = std::get<0>(t);
@@ -457,7 +473,7 @@ int main(int argc, char** argv) {
                             c.slices = std::get<1>(t);
                             c.reenter = std::get<2>(t);
                             c.readmask = std::get<3>(t) & 7;
-                            c.polls = std::get<4>(t) & 7;
+                            c.polls = std::get<4>(t) & 31;
                             return c;
                         });
     };
